@@ -69,7 +69,7 @@ MECHANISMS = ([(_P, n) for n in ('from49', 'from50', 'from56', 'from66', 'from68
                                    'OBNAME_len', 'OBJREF', 'STATUS', 'UNITS', 'code_read')]
               + [(_B, 'bytes_to_float')])
 REQUIRED_MONITORS = ['exact_reference', 'differential_from68', 'differential_to68', 'consumption', 'len_helpers',
-                     'truncated_must_raise', 'encoder_equivalence', 'encoder_bound', 'bit_vs_isingl', 'ref_selfcheck', 'sequential_stream', 'integer_writers',
+                     'truncated_must_raise', 'encoder_equivalence', 'encoder_bound', 'bit_vs_isingl', 'ref_selfcheck', 'sequential_stream', 'same_bytes_other_code', 'integer_writers',
                      'sanitizer_harness_words', 'sanitizer_module_calls']
 MIN_NONTRIVIAL = {'quick': 3000000, 'thorough': 400000000}
 TIMEOUT_S = {'quick': 400, 'thorough': 3400}
@@ -1272,6 +1272,43 @@ def leg_streams(S, mods, RPmods, rng, R, n_streams):
                 break
 
 
+def leg_same_bytes_other_code(S, mods, rng, R, n):
+    """The same bytes decoded under one LIS code and then under another of the same size, through every bytes-level entry point:
+    what a code makes of the bytes must not depend on which code looked at them before (compared with the word-level decoder
+    fromNN, which takes no bytes)."""
+    RepCode = mods[0]
+    rec = S.rec
+    by_size = {}
+    for c in R.LIS_CODES:
+        if hasattr(RepCode, 'from%d' % c) and hasattr(RepCode, 'readBytes%d' % c):
+            by_size.setdefault(R.LIS_SIZE[c], []).append(c)
+    groups = [cs for cs in by_size.values() if len(cs) >= 2]
+    for _ in range(n):
+        codes = rng.choice(groups)
+        size = R.LIS_SIZE[codes[0]]
+        body = rng.randbytes(size) if rng.random() < 0.7 else rng.choice([b'\x44\x4c\x80\x00', b'\x00\x99\x40\x00', b'\x80\x00\x00\x00', b'\xff\xff\xff\xff', b'\x00\x00\x00\x01'])[:size].ljust(size, b'\x00')
+        word = int.from_bytes(body, 'big')
+        order = rng.sample(codes, len(codes)) * 2
+        rec.mon('same_bytes_other_code', len(order))
+        rec.case(('same-bytes', body, tuple(order)), True, classes=['history:same-bytes-other-code'])
+        for k, c in enumerate(order):
+            try:
+                want = getattr(RepCode, 'from%d' % c)(word)
+            except Exception:  # noqa - words a code cannot decode are the business of the other legs
+                continue
+            for entry in ('readBytes', 'readBytes%d' % c):
+                try:
+                    got = RepCode.readBytes(c, body) if entry == 'readBytes' else getattr(RepCode, entry)(body)
+                except Exception as e:  # noqa
+                    got = e
+                if isinstance(got, Exception) or not _same(want, got):
+                    if S.want(('same-bytes', c, entry), False):
+                        rec.violation('same_bytes_other_code', 'depends-on-history', 'LIS%d %s(%s) -> %r after the same bytes were decoded as %s; from%d(%#x) gives %r' % (
+                            c, entry, body.hex(), got, ['LIS%d' % x for x in order[:k]] or 'nothing', c, word, want),
+                            {'code': 'LIS%d' % c, 'entry': entry, 'bytes': body.hex(), 'decoded_before_as': order[:k], 'observed': repr(got), 'word_level': repr(want)})
+                    break
+
+
 def td_plain(name, v):
     """A decoded RP66V1 value as plain comparable data (fixed codes: the number itself)."""
     if name in S_SIZE:
@@ -1660,6 +1697,7 @@ def run_shard(ctx, p):
         leg_int_writers(S, mods, np, R, N_RANDOM[ctx.tier] // 4)
         leg_helpers(S, mods, RPmods, R)
         leg_streams(S, mods, RPmods, ctx.sub_rng('streams'), R, 150 if ctx.tier == 'quick' else 4000)
+        leg_same_bytes_other_code(S, mods, ctx.sub_rng('same-bytes'), R, 400 if ctx.tier == 'quick' else 20000)
     finally:
         if harness:
             finish_harness(S, harness, R)
